@@ -292,6 +292,221 @@ def cli_diags(source: str, args) -> Counter:
 
 
 # ---------------------------------------------------------------------------
+# interaction corpus: programs in which the checks of DIFFERENT codes meet on one name.
+#
+# A function binds a local (BINDINGS) and then mentions it only in a way that is not an ordinary read (REFS): inside
+# the braces of a plain string, a .format()ed / %-formatted string, a string annotation, del, global, a decorator,
+# locals()/eval, a closure, a class body ...  Whether such a mention counts as a use is decided by one check and
+# consumed by another (unused_variable / unused_assignment / possibly_undefined_name / missing_f / use_fstrings /
+# bad_format_string / undefined_name ...).  The projection law is then demanded for EVERY error code c (whether or not
+# D(P) contains a diagnostic of c) with every code enabled in the baseline, and for small subsets.
+
+VAR = "VAR"
+
+BINDINGS = [   # (name, statements binding the local VAR, extra parameters)
+    ("assign", ["VAR = 1"], ""),
+    ("annassign", ["VAR: int = 1"], ""),
+    ("str-assign", ["VAR = 'hello ' + str(flag)"], ""),
+    ("reassign", ["VAR = 1", "print(VAR)", "VAR = 2"], ""),
+    ("branch", ["if flag:", "    VAR = 1", "else:", "    VAR = 2"], ""),
+    ("maybe", ["if flag:", "    VAR = 1"], ""),
+    ("unpack", ["VAR, other = 1, 2", "print(other)"], ""),
+    ("for", ["for VAR in range(3):", "    pass"], ""),
+    ("with", ["with open('f') as VAR:", "    pass"], ""),
+    ("import", ["import os as VAR"], ""),
+    ("walrus", ["if (VAR := flag):", "    pass"], ""),
+    ("augassign", ["VAR = 1", "VAR += 1"], ""),
+    ("nested-def", ["def VAR():", "    return 1"], ""),
+    ("param", [], ", VAR"),
+    ("global-assign", ["global VAR", "VAR = 1"], ""),
+]
+
+REFS = [   # (name, statements that mention VAR)
+    ("none", ["return None"]),
+    ("read", ["return VAR"]),
+    ("brace-return", ['return "{VAR}"']),
+    ("brace-arg", ['print("{VAR}")']),
+    ("brace-local", ['s = "{VAR}"', "return s"]),
+    ("brace-conversion", ['return "{VAR!r:>10}"']),
+    ("brace-attribute", ['return "{VAR.real}"']),
+    ("brace-subscript", ['return "{VAR[0]}"']),
+    ("brace-expression", ['return "{VAR + 1}"']),
+    ("brace-two-names", ['return "{VAR} and {flag}"']),
+    ("brace-with-unknown-name", ['return "{VAR} and {no_such_name}"']),
+    ("brace-doubled", ['return "{{VAR}}"']),
+    ("brace-positional", ['return "{} {VAR}"']),
+    ("brace-not-an-expression", ['return "{VAR"']),
+    ("brace-format-keyword", ['return "{VAR}".format(VAR=3)']),
+    ("brace-format-locals", ['return "{VAR}".format(**locals())']),
+    ("brace-format-map", ['return "{VAR}".format_map(locals())']),
+    ("brace-template-call", ['return _t("{VAR}", VAR=3)']),
+    ("brace-template-call-other-keyword", ['return _t("{VAR}", other=3)']),
+    ("brace-expression-statement", ['"{VAR}"', "return None"]),
+    ("brace-bytes", ['return b"{VAR}"']),
+    ("brace-implicit-concatenation", ['return "a" "{VAR}"']),
+    ("brace-triple-quoted", ['return """', "    {VAR}", '"""']),
+    ("brace-in-fstring-literal-part", ['return f"{flag} {{VAR}}"']),
+    ("fstring", ['return f"{VAR}"']),
+    ("percent-locals", ['return "%(VAR)s" % locals()']),
+    ("percent-dict", ['return "%(VAR)s" % {"VAR": 1}']),
+    ("percent-tuple-brace", ['return "%s {VAR}" % (flag,)']),
+    ("string-annotation", ['y: "VAR" = flag', "return y"]),
+    ("string-annotation-parameter", ['def inner(a: "VAR"):', "    return a", "return inner"]),
+    ("string-annotation-return", ['def inner() -> "VAR":', "    return None", "return inner"]),
+    ("cast-string", ['return cast("VAR", flag)']),
+    ("del", ["del VAR"]),
+    ("decorator", ["@VAR", "def inner():", "    pass", "return inner"]),
+    ("locals-call", ["return locals()"]),
+    ("eval", ['return eval("VAR")']),
+    ("closure-read", ["def inner():", "    return VAR", "return inner"]),
+    ("closure-brace", ["def inner():", '    return "{VAR}"', "return inner"]),
+    ("lambda-brace", ['return lambda: "{VAR}"']),
+    ("class-body-brace", ["class K:", '    s = "{VAR}"', "return K"]),
+    ("comprehension-brace", ['return ["{VAR}" for _ in range(2)]']),
+    ("assert-message-brace", ['assert flag, "{VAR}"']),
+    ("dict-key-brace", ['return {"{VAR}": 1}']),
+    ("default-argument-brace", ['def inner(a="{VAR}"):', "    return a", "return inner"]),
+    ("comment", ["# VAR {VAR}", "return None"]),
+    ("name-as-string", ['return "VAR"']),
+    ("getattr-string", ['return getattr(flag, "VAR", None)']),
+    ("augmented-only", ["VAR += 1"]),
+    ("write-only-attribute", ["VAR.attr = 1"]),
+    ("condition-only", ["if VAR:", "    pass"]),
+]
+
+CONTEXTS = ["def", "async", "method", "nested", "staticmethod"]
+
+INTERACTION_PREAMBLE = [
+    "from typing import cast",
+    "",
+    "",
+    "def _t(s, **kw):",
+    "    return s",
+]
+N_PARTS = len(BINDINGS)          # part p pairs ref r with binding (r + p) mod |BINDINGS|: all parts = the full grid
+
+
+def interaction_program(part: int, rot: int = 0):
+    """Module text of one part of the grid + the list of (binding, ref, context, first line, last line) per function.
+    `rot` rotates the context assignment only."""
+    lines = list(INTERACTION_PREAMBLE)
+    units = []
+    for r, (rname, ref) in enumerate(REFS):
+        bname, bind, params = BINDINGS[(r + part) % len(BINDINGS)]
+        cname = CONTEXTS[(r + part // 2 + rot) % len(CONTEXTS)]
+        v = f"v{r}"
+        body = [ln.replace(VAR, v) for ln in bind + ref]
+        params = params.replace(VAR, v)
+        lines += ["", ""]
+        start = len(lines) + 1
+        if cname == "def":
+            lines += [f"def f{r}(flag{params}):"] + ["    " + ln for ln in body]
+        elif cname == "async":
+            lines += [f"async def f{r}(flag{params}):"] + ["    " + ln for ln in body]
+        elif cname == "method":
+            lines += [f"class C{r}:", f"    def m(self, flag{params}):"] + ["        " + ln for ln in body]
+        elif cname == "staticmethod":
+            lines += [f"class C{r}:", "    @staticmethod", f"    def m(flag{params}):"] + ["        " + ln for ln in body]
+        else:
+            lines += [f"def f{r}(outer):", f"    def g(flag{params}):"] + ["        " + ln for ln in body] + ["    return g"]
+        units.append((bname, rname, cname, start, len(lines)))
+    return "\n".join(lines) + "\n", units
+
+
+def unit_at(units, lineno) -> tuple:
+    for bname, rname, cname, a, b in units:
+        if lineno is not None and a <= lineno <= b:
+            return bname, rname, cname
+    return ("-", "-", "-")
+
+
+def extract_unit(source: str, units, lineno) -> str:
+    """The preamble plus the one function that contains `lineno` (witness minimisation by construction)."""
+    lines = source.split("\n")
+    for _, _, _, a, b in units:
+        if lineno is not None and a <= lineno <= b:
+            return "\n".join(INTERACTION_PREAMBLE + ["", ""] + lines[a - 1:b]) + "\n"
+    return source
+
+
+ALL_REAL_CODES = sorted(c.name for c in ErrorCode)
+
+
+def kw_all(disabled=()) -> dict:
+    """Every error code enabled except `disabled`, through the settings dictionary --enable-all / --disable build."""
+    s = {c: (c.name not in disabled) for c in ErrorCode}
+    return dict(NameCheckVisitor.prepare_constructor_kwargs({"settings": s}))
+
+
+def all_config(disabled=(), *, override_for: Optional[str] = None) -> str:
+    """TOML: every code `true` at top level; `disabled` set to false at top level or in an override for one module."""
+    vals = {c: True for c in ALL_REAL_CODES}
+    if override_for is None:
+        for c in disabled:
+            vals[c] = False
+        return "[tool.pyanalyze]\n" + _toml_codes(vals)
+    return ("[tool.pyanalyze]\n" + _toml_codes(vals) + f'\n[[tool.pyanalyze.overrides]]\nmodule = "{override_for}"\n'
+            + _toml_codes({c: False for c in disabled}))
+
+
+def cli_all_diags(source: str, args) -> Counter:
+    n = next(_counter)
+    stem = f"vpc11cli_{os.getpid()}_{n}"
+    d = os.path.join(scratch_dir(), stem + "_dir")
+    os.makedirs(d, exist_ok=True)
+    src = os.path.join(d, stem + ".py")
+    with open(src, "w") as f:
+        f.write(source)
+    cfg = os.path.join(d, "cfg.toml")
+    with open(cfg, "w") as f:
+        f.write("[tool.pyanalyze]\n")
+    out = os.path.join(d, "out.json")
+    p = harness.run_cli(["--config-file", cfg, "--enable-all", "--json-output", out, *args, src], cwd=d)
+    if p.returncode not in (0, 1):
+        raise Undecided(f"cli rc={p.returncode}: {p.stderr[-300:]}")
+    res: Counter = Counter()
+    if os.path.exists(out):
+        with open(out) as f:
+            for fl in json.load(f):
+                desc = str(fl.get("description", "")).replace(stem, "<M>")
+                res[(str(fl.get("code")), fl.get("lineno"), fl.get("col_offset"), desc)] += 1
+    return res
+
+
+INTERACTION_MOD = "vpc11.inter.m"
+
+
+def interaction_runs(route: str, source: str, S):
+    """-> (D(P) under the all-enabled baseline of the route, D(P | disable S) through the route)."""
+    S = sorted(S)
+    if route == "all-settings":
+        return run_diags(source, kw_all()), run_diags(source, kw_all(S))
+    if route == "all-toplevel":
+        return run_diags(source, kw_from_config(all_config())), run_diags(source, kw_from_config(all_config(S)))
+    if route == "all-override":
+        kw = kw_from_config(all_config(S, override_for="vpc11.inter"))
+        return run_diags(source, kw, "vpc11.base.m"), run_diags(source, kw, INTERACTION_MOD)
+    if route == "all-cli":
+        return cli_all_diags(source, []), cli_all_diags(source, [a for c in S for a in ("-d", c)])
+    raise ValueError(route)
+
+
+def interaction_key(route: str, direction: str, S, d) -> str:
+    """disable-any|<direction>|<code of the affected diagnostic>: the route and the disabled code are not part of the
+    key (one hidden dependency between two checks shows through every route); they are in the text."""
+    return f"disable-any|{direction}|{d[0]}"
+
+
+def interaction_case(route: str, source: str, S):
+    base, got = interaction_runs(route, source, S)
+    v = judge_disable(base, got, S)
+    if v is None:
+        return None
+    return (interaction_key(route, v[0], S, v[1]),
+            f"every code enabled, disable {sorted(S)} via {route}: {v[0]}: {short(v[1])}")
+
+
+# ---------------------------------------------------------------------------
 # comment placements
 
 
